@@ -43,6 +43,15 @@ def spec_qtrim(q, cf, cb):
 
 def gen_quals(rng, n, base):
     mode = rng.random()
+    if base > 33 and rng.random() < 0.3:
+        # characters below the quality base (Solexa range with --quality-base 64): negative quality values, which the
+        # BWA rule trims even with cutoff 0
+        lo = 33 - base
+        if rng.random() < 0.5:
+            return [rng.randint(lo, 126 - base) for _ in range(n)]
+        k = rng.randint(0, n)
+        j = rng.randint(0, n - k)
+        return [rng.randint(lo, 3) for _ in range(k)] + [rng.randint(5, 40) for _ in range(n - k - j)] + [rng.randint(lo, 3) for _ in range(j)]
     if mode < 0.25:   # all printable quality characters
         return [rng.randint(base, 126) - base for _ in range(n)]
     if mode < 0.6:    # small values around typical cutoffs: ties and early stops
